@@ -13,7 +13,7 @@ HARN = ['lazymon.cc']
 # apostrophe (`\\S\\'` is ONE escaped character for the library's string reader, not the end of the string)
 LAZY_STRS = gen_p21.STRS + ["q\\S\\'r", "see #1 \\S\\' and (#2); \\S\\' done", "\\S\\'"]
 import os
-VARIANTS = [v for v in (os.environ.get('VERIF_DBG_VARIANTS') or 'compact,spaced,cmt_between,lines').split(',') if v not in probes.masked_variants('C10')]
+VARIANTS = [v for v in (os.environ.get('VERIF_DBG_VARIANTS') or 'compact,spaced,cmt_between,lines,zero_ids,cmt_structural,cmt_before_top').split(',') if v not in probes.masked_variants('C10')]
 
 
 def unhex(h):
@@ -173,7 +173,7 @@ def cover(chk, lib, pop, variant):
 
 def main(chk):
     quick = chk.tier == 'quick'
-    n_schemas, n_pops = (10, 4) if quick else (120, 8)
+    n_schemas, n_pops = (10, 14) if quick else (120, 21)
     schemas = p21fam.std_corpus(chk.seed, n_schemas, AVOID_SCHEMA)
     libs = p21fam.report_build_failures(chk, p21fam.build_libs(schemas, harnesses=HARN, lazy=True))
     cases = []
